@@ -45,6 +45,36 @@ def _standin(rep, tier, seed, only_search=False):
     from standins.mgh_oracle import largest_component, mgh, relabel
     rng = random.Random(seed * 73 + 17)
     evals, distinct, samples = 0, set(), []
+    # the integer cast of a distance matrix keeps every entry, wherever the largest one sits (values around each type's limit)
+    from persim.gromov_hausdorff import cast_distance_matrix_to_optimal_int_type as _cast
+    limits = [0, 1, 126, 127, 128, 200, 255, 256, 32767, 32768, 40000, 65535, 70000, 2 ** 31 - 1, 2 ** 31, 2 ** 32 + 5, 2 ** 40]
+    for big in limits:
+        for size, pos in ((1, (0, 0)), (2, (0, 1)), (2, (1, 0)), (2, (1, 1)), (3, (2, 1)), (3, (1, 2)), (4, (3, 3))):
+            for dt in (np.float64, np.int64):
+                DX = np.zeros((size, size), dtype=dt)
+                DX[0, 0] = min(big, 3)
+                DX[pos] = big
+                keep = DX.copy()
+                try:
+                    got = _cast(DX)
+                except Exception as ex:
+                    rep.violation("cast_distance_matrix_to_optimal_int_type raised %r on a %s matrix with largest entry %d at %s" % (ex, dt.__name__, big, pos),
+                                  "mgh:cast-exception", {"input": {"cast": keep.tolist(), "dtype": dt.__name__}, "observed": repr(ex)})
+                    if only_search:
+                        return
+                    continue
+                evals += 1
+                distinct.add(("cast", big, size, dt.__name__))
+                if not (got.shape == keep.shape and got.dtype.kind == "i" and np.array_equal(got.astype(object), keep.astype(np.int64).astype(object))):
+                    rep.violation("integer cast of a distance matrix changed an entry: largest entry %d at %s of a %dx%d %s matrix came back as %r (type %s)"
+                                  % (big, pos, size, size, dt.__name__, got[pos].item() if got.shape == keep.shape else None, got.dtype),
+                                  "mgh:cast-value", {"input": {"cast": keep.tolist(), "dtype": dt.__name__}, "observed": got.tolist()})
+                    if only_search:
+                        return
+                if not np.array_equal(DX, keep):
+                    rep.violation("integer cast modified its argument", "mgh:cast-purity", {"input": {"cast": keep.tolist(), "dtype": dt.__name__}})
+                    if only_search:
+                        return
     n = 30 if tier == "quick" else 500
     for it in range(n):
         na, nb = rng.randint(2, 5), rng.randint(2, 5)
@@ -285,5 +315,16 @@ def replay(doc):
         except Exception as ex:
             print("replay C17: disconnected graph -> raised %r: VIOLATED" % (ex,))
             return 1
+    if "cast" in inp:
+        from persim.gromov_hausdorff import cast_distance_matrix_to_optimal_int_type as _cast
+        DX = np.array(inp["cast"], dtype=getattr(np, inp.get("dtype", "float64")))
+        try:
+            got = _cast(DX.copy())
+        except Exception as ex:
+            print("replay C17: integer cast raised %r: VIOLATED" % (ex,))
+            return 1
+        ok = got.shape == DX.shape and np.array_equal(got.astype(object), DX.astype(np.int64).astype(object))
+        print("replay C17: integer cast of %s -> %s (%s): %s" % (DX.tolist(), got.tolist(), got.dtype, "HOLDS" if ok else "VIOLATED"))
+        return 0 if ok else 1
     print("replay C17: %s" % doc.get("what"))
     return 1
